@@ -510,6 +510,10 @@ def cross_cases(rng, n):
         ops.append("j:%d" % a)
         for _ in range(rng.randint(1, 3)):
             ops.append("%s:%d:c:x" % ("sf" if rng.random() < 0.6 else "sp", a))
+        # B goes on running for a while (a task of its own is sent and awaited, which also ends the gate task): anything that was
+        # wrongly queued on B gets its turn before B is stopped
+        ops.append("sf:%d:c:o" % b)
+        ops.append("aw:%d:%d" % (b, len(ops) - 1))
         ops.append("st:%d:%s" % (b, rng.choice("oh")))
         ops.append("j:%d" % b)
         seed = rng.randrange(1, 10 ** 6) * 4 + r % 4
